@@ -2604,7 +2604,9 @@ fn expect_pattern_in_range(ty: &Type, from: i128, to: i128, meta: MetaInfo) -> R
         _ => None,
     };
     match range {
-        Some((min, max)) if from < min || to > max => {
+        // (both bounds: an inverted range like `256..=0` or `-128i8..-128i8`, stored as
+        // -128..=-129, would otherwise be cut down to the bits of the type and match values)
+        Some((min, max)) if from < min || from > max || to < min || to > max => {
             let e = TypeErrorEnum::PatternDoesNotMatchType(ty.clone());
             Err(vec![Some(TypeError::new(e, meta))])
         }
